@@ -37,7 +37,9 @@ leaves `vertical_overflow` at `"visible"`; `blankFix = false` is today's `restor
 `flushFix = false` is today's `stop`, which does not flush the FileProxy objects before its last refresh:
 text pending from `print(..., end="")` is only written when the proxy object dies in
 `_disable_redirect_io` — after the last frame, through the still installed hook.  /repo contains the three repairs: `bareBypass = false`, `startGuard = true`,
-`resetShape = true` (the values the harness passes).
+`resetShape = true` (the values the harness passes).  `guardBase = false`: the guard of `Progress.start` is
+`except Exception:` (a KeyboardInterrupt / SystemExit / GeneratorExit from the renderable, `faultBase`, gets past it);
+`disableFix = false`: the `stop` of a `Progress(disable=True)` still writes its line feed.
 -/
 namespace RichModel.Live
 open RichModel
@@ -73,11 +75,21 @@ structure Cfg where
   terminal : Bool := true                   -- `console.is_terminal`
   dumb : Bool := false                      -- `console.is_dumb_terminal` (implies `terminal`)
   disable : Bool := false                   -- `Progress(disable=True)`
+  faultBase : Bool := false                 -- the injected exception derives from BaseException only (KeyboardInterrupt, SystemExit, GeneratorExit)
+  guardBase : Bool := false                 -- variant flag: `Progress.start` guards its first refresh with `except BaseException` (false: `except Exception`)
+  disableFix : Bool := false                -- variant flag: a disabled Progress writes no line feed and erases nothing at `stop` (false: as found)
   spin : Nat → Char := fun _ => '⠋'         -- Status: what the spinner shows at the n-th render of the display (opaque)
   cw : Char → Nat := fun _ => 1             -- `get_character_cell_size` (the driver passes the table of rich/_cell_widths.py)
 
 /-- A terminal that understands control codes: `show_cursor` / `Console.control` write something. -/
 def Cfg.ansi (cfg : Cfg) : Bool := cfg.terminal && !cfg.dumb
+
+/-- Does the guard around the first refresh of `Progress.start` catch the injected exception?
+`except Exception:` (fix 4e4f7e5) lets KeyboardInterrupt / SystemExit / GeneratorExit through. -/
+def Cfg.guards (cfg : Cfg) : Bool := cfg.startGuard && (cfg.guardBase || !cfg.faultBase)
+
+/-- The repaired `Progress.stop` of a disabled display: no line feed, nothing to erase. -/
+def Cfg.quietStop (cfg : Cfg) : Bool := cfg.disableFix && cfg.disable
 
 /-- The configurations the screen theorems are about. -/
 def Cfg.plain (cfg : Cfg) : Bool := cfg.terminal && !cfg.dumb && !cfg.disable
@@ -102,7 +114,7 @@ deriving Repr, DecidableEq
 structure St where
   started : Bool := false
   shape : Option (Nat × Nat) := none        -- `_live_render._shape` (width, height)
-  renderable : Frame := []                  -- Live: lines the renderable yields; Progress: the tasks table built by the last refresh
+  renderable : Frame := []                  -- Live: lines the renderable yields; Progress: the row texts of the tasks table built by the last refresh
   overflow : Overflow := .ellipsis          -- `Live.vertical_overflow` (mutated by `stop`)
   overflow0 : Overflow := .ellipsis         -- `vertical_overflow` as saved on entry of the last `stop` (used by the repaired code only)
   hooks : Nat := 0                          -- len(console._render_hooks)
@@ -197,6 +209,20 @@ def setShape (cw : Char → Nat) (f : Frame) (w h : Nat) : Frame :=
 def cropLine (cw : Char → Nat) (w : Nat) (l : Line) : Line :=
   if cellLen cw l > w then setCellSize cw l w else l
 
+/-- A cell wider than its column: the column is `no_wrap` with overflow `"ellipsis"`, so the text is
+`Text.truncate(width, overflow="ellipsis")`: `set_cell_size(plain, width - 1) + "…"`.  (Stated here with
+`Model/Cells` only, so that importers of this file do not see the Text model's names; that this *is*
+`Text.truncate` of the Text model of C05 is `truncRow_eq_truncate` in `Lemmas/LiveText.lean`.) -/
+def truncRow (cw : Char → Nat) (w : Nat) (row : Line) : Line :=
+  if cellLen cw row > w then setCellSize cw row (w - 1) ++ ['…'] else row
+
+/-- The one-column grid rendered at console width `w`: the column is as wide as its widest row but never
+wider than the console (`_collapse_widths` / `ratio_reduce` on a column that cannot wrap); every cell is
+truncated to it and padded to it. -/
+def tableLines (cw : Char → Nat) (w : Nat) (rows : Frame) : Frame :=
+  let colw := min (maxWidth cw rows) w
+  rows.map (fun r => padTo cw colw (truncRow cw colw r))
+
 /-- The line `Text("...", overflow="crop", justify="center", end="")` renders to at width `w ≥ 3`. -/
 def ellipsisLine (w : Nat) : Line :=
   List.replicate ((w - 3) / 2) ' ' ++ ['.', '.', '.'] ++ List.replicate ((w - 3) - (w - 3) / 2) ' '
@@ -213,7 +239,7 @@ def liveFrame (cw : Char → Nat) (w h : Nat) (ov : Overflow) (r : Frame) : Fram
 
 /-- `LiveRender.__rich_console__` (Progress): new shape (running maximum) and the padded lines. -/
 def progressFrame (cw : Char → Nat) (w : Nat) (shape : Option (Nat × Nat)) (r : Frame) : Frame × (Nat × Nat) :=
-  let lines := r.map (cropLine cw w)
+  let lines := tableLines cw w r
   let s1 := getShape cw lines
   let s := match shape with
     | none => s1
@@ -229,6 +255,12 @@ def natLine (n : Nat) : Line := (toString n).toList
 
 def taskRow (t : Task) : Line := t.desc ++ ' ' :: natLine t.completed ++ '/' :: natLine t.total
 
+/-- The table with every cell padded to the widest row (what `tableLines` gives when all rows fit the
+console) — kept for importers written before rows could be truncated. -/
+def tasksTable (cw : Char → Nat) (tasks : List Task) : Frame :=
+  let rows := (tasks.filter (·.visible)).map taskRow
+  rows.map (padTo cw (maxWidth cw rows))
+
 /-- `Progress.update` / `reset`: total, advance, completed, description, visible — in this order. -/
 def Edit.apply (e : Edit) (t : Task) : Task :=
   let t := match e.total with | some n => { t with total := n } | none => t
@@ -237,11 +269,9 @@ def Edit.apply (e : Edit) (t : Task) : Task :=
   let t := match e.desc with | some d => { t with desc := d } | none => t
   match e.visible with | some v => { t with visible := v } | none => t
 
-/-- `make_tasks_table` with the single column `"{task.description} {task.completed}/{task.total}"`: one row per
-visible task, cells padded to the widest. -/
-def tasksTable (cw : Char → Nat) (tasks : List Task) : Frame :=
-  let rows := (tasks.filter (·.visible)).map taskRow
-  rows.map (padTo cw (maxWidth cw rows))
+/-- `make_tasks_table` with the single column `"{task.description} {task.completed}/{task.total}"`: the
+texts of the rows, one per visible task (laid out at render time, see `tableLines`). -/
+def taskRows (tasks : List Task) : Frame := (tasks.filter (·.visible)).map taskRow
 
 /-- What the spinner cell shows is replaced at every render (`Cfg.spin`). -/
 def respin (c : Char) : Frame → Frame
@@ -318,7 +348,7 @@ def doRefresh (cfg : Cfg) (fails : Nat → Bool) (st : St) : Res :=
       let st1 := { st with calls := c }
       if !ok then { st := st1, err := some .fault }
       else
-        let st2 := { st1 with renderable := tasksTable cfg.cw st.tasks }
+        let st2 := { st1 with renderable := taskRows st.tasks }
         if st2.hooks > 0 then hooked cfg fails st2 [] else { st := st2 }
   | _ =>
     if cfg.ansi then (if st.hooks > 0 then hooked cfg fails st [] else { st := st })
@@ -419,8 +449,8 @@ def stopTail (cfg : Cfg) (fails : Nat → Bool) (r : Res) (alive : Option Bool :
     { st := l.st, out := r.out ++ finOut cfg d.out ++ l.out, err := some e }
   | none =>
     { st := resetSt cfg (cleanup d.st),
-      out := r.out ++ (if cfg.terminal then [.lf] else []) ++ finOut cfg d.out ++
-        (if cfg.transient && cfg.ansi then restoreCursor cfg.blankFix (cleanup d.st).shape else []) }
+      out := r.out ++ (if cfg.terminal && !cfg.quietStop then [.lf] else []) ++ finOut cfg d.out ++
+        (if cfg.transient && cfg.ansi && !cfg.quietStop then restoreCursor cfg.blankFix (cleanup d.st).shape else []) }
 
 /-- The state `stop` hands to its last refresh: `_started = False`, and for a Live
 `vertical_overflow = "visible"`. -/
@@ -457,7 +487,7 @@ def doStart (cfg : Cfg) (fails : Nat → Bool) (st : St) : Res :=
       match r.err with
       | none => { st := r.st, out := hideOp cfg ++ r.out }
       | some e =>
-        if cfg.startGuard then
+        if cfg.guards then   -- `except Exception:` lets a BaseException through
           let r2 := doStop cfg fails r.st
           { st := r2.st, out := hideOp cfg ++ r.out ++ r2.out, err := some (r2.err.getD e) }
         else { st := r.st, out := hideOp cfg ++ r.out, err := some e }
@@ -556,7 +586,7 @@ def shown (cfg : Cfg) (st : St) : Frame :=
   | .progress =>
     match st.shape with
     | none => []
-    | some (w, h) => setShape cfg.cw (st.renderable.map (cropLine cfg.cw (curWidth cfg st))) w h
+    | some (w, h) => setShape cfg.cw (tableLines cfg.cw (curWidth cfg st) st.renderable) w h
   | _ => liveFrame cfg.cw (curWidth cfg st) cfg.height st.overflow st.renderable
 
 /-- Operations that call `refresh()` / print through the console. -/
@@ -591,13 +621,36 @@ def viewStep (cfg : Cfg) (st : St) (v : View) (op : Op) : View :=
       | _ => v.printed
     frame := if redraws cfg st op then shown cfg (step cfg noFault st op).st else v.frame }
 
-/-- The frame the last refresh of `stop` puts on display (rendered `visible`). -/
-def stopFrame (cfg : Cfg) (st : St) : Frame := shown cfg (doRefresh cfg noFault (stopSt cfg st)).st
+/-- Text that `print(..., end="")` left pending in the redirected stream `e`, as the line the repaired
+`stop` completes it to (`[]` if nothing is pending). -/
+def pend (st : St) (e : Bool) : List Line :=
+  if proxied st e && !(getBuf st e).isEmpty then [getBuf st e] else []
 
-/-- The final `stop`: last refresh (rendered `visible`), then nothing if transient. -/
+/-- What the repaired `stop` prints before its last refresh: pending stdout text, then pending stderr text
+— above the display, below everything printed so far. -/
+def pendLines (cfg : Cfg) (st : St) : List Line := if cfg.flushFix then pend st false ++ pend st true else []
+
+/-- The state in which `stop` does its last refresh: after the two flushes of the repaired code. -/
+def stopPre (cfg : Cfg) (st : St) : St :=
+  if cfg.flushFix then
+    (flushLive cfg noFault (flushLive cfg noFault { st with started := false } false).st true).st
+  else st
+
+/-- The frame the last refresh of `stop` puts on display (rendered `visible`). -/
+def stopFrame (cfg : Cfg) (st : St) : Frame := shown cfg (doRefresh cfg noFault (stopSt cfg (stopPre cfg st))).st
+
+/-- Do the frames drawn by the flushes of the repaired `stop` (ordinary prints: current overflow mode) fit? -/
+def flushFits (cfg : Cfg) (st : St) : Bool :=
+  let r1 := flushLive cfg noFault { st with started := false } false
+  let r2 := flushLive cfg noFault r1.st true
+  ((pend st false).isEmpty || (shown cfg r1.st).length ≤ cfg.height) &&
+    ((pend st true).isEmpty || (shown cfg r2.st).length ≤ cfg.height)
+
+/-- The final `stop`: pending stream text is completed above the display, last refresh (rendered
+`visible`), then nothing if transient. -/
 def viewStop (cfg : Cfg) (st : St) (v : View) : View :=
   if st.started then
-    { v with frame := if cfg.transient then [] else stopFrame cfg st }
+    { printed := v.printed ++ pendLines cfg st, frame := if cfg.transient then [] else stopFrame cfg st }
   else v
 
 /-- The specification-level run; `stop` ends it (well-formed histories have nothing after it). -/
@@ -610,13 +663,13 @@ def specRun (cfg : Cfg) : St → View → List Op → St × View
 /-- Well-formed histories for the screen theorems (explicit and decidable):
 every operation belongs to the display kind and raises nothing; `stop` occurs only as the last
 operation; every frame put on display fits the screen (automatic for `crop` / `ellipsis`); a transient
-display leaves one row for the final line feed; no text is pending in a FileProxy when `stop` is called
-(every `print(..., end="")` was completed by a new line). -/
+display leaves one row for the final line feed; the frames redrawn when the repaired `stop` completes
+pending stream text fit as well (`flushFits`). -/
 def wfOps (cfg : Cfg) : St → List Op → Bool
   | _, [] => true
   | st, op :: rest =>
     if op = .stop then
-      rest.isEmpty && (doStop cfg noFault st).err.isNone && st.bufOut.isEmpty && st.bufErr.isEmpty &&
+      rest.isEmpty && (doStop cfg noFault st).err.isNone && (!st.started || flushFits cfg st) &&
         (!st.started || !cfg.transient || restoreCount cfg.blankFix (stopFrame cfg st).length + 1 ≤ cfg.height)
     else
       let r := step cfg noFault st op
@@ -653,7 +706,7 @@ def leftBy (cfg : Cfg) (f : Frame) : List Line :=
 /-- `stop` in the middle of a history: what the display leaves joins the finished output, nothing is on
 display any more.  (`View.printed` is then: printed lines and frames left by stopped sessions, in order.) -/
 def viewStopM (cfg : Cfg) (st : St) (v : View) : View :=
-  if st.started then { printed := v.printed ++ leftBy cfg (stopFrame cfg st), frame := [] } else v
+  if st.started then { printed := v.printed ++ pendLines cfg st ++ leftBy cfg (stopFrame cfg st), frame := [] } else v
 
 def viewStepM (cfg : Cfg) (st : St) (v : View) (op : Op) : View :=
   if op = .stop then viewStopM cfg st v else viewStep cfg st v op
@@ -668,7 +721,7 @@ def wfOpsM (cfg : Cfg) : St → List Op → Bool
   | st, op :: rest =>
     let r := step cfg noFault st op
     (if op = .stop then
-      r.err.isNone && st.bufOut.isEmpty && st.bufErr.isEmpty
+      r.err.isNone && (!st.started || flushFits cfg st)
         && (!st.started || !cfg.transient || restoreCount cfg.blankFix (stopFrame cfg st).length + 1 ≤ cfg.height)
     else
       op.applies cfg.kind && r.err.isNone
